@@ -31,6 +31,11 @@ import tempfile
 KINDS = ('bytesio', 'file', 'file_warm', 'file_end', 'file_small', 'mmap', 'gzip', 'decoy_fd')
 
 
+# not in KINDS (most of the library seeks): a non-seekable stream for the entry points that only read forward
+# pipe      : the read end of an os.pipe() holding the bytes (data over 60000 bytes: falls back to 'file')
+FORWARD_ONLY_KINDS = ('pipe',)
+
+
 class _DecoyFdIO(io.BytesIO):
     def __init__(self, data, fobj):
         io.BytesIO.__init__(self, data)
@@ -69,6 +74,17 @@ class Streams:
             return io.BytesIO(data)
         if kind == 'gzip' and len(data) > 256 * 1024:
             kind = 'file'
+        if kind == 'pipe' and len(data) > 60000:
+            kind = 'file'
+        if kind == 'pipe':
+            r, w = os.pipe()
+            try:
+                os.write(w, data)
+            finally:
+                os.close(w)
+            st = os.fdopen(r, 'rb')
+            self._open.append(st)
+            return st
         if kind == 'decoy_fd':
             f = open(self.path_of(b'\xa5' * 64), 'rb')
             self._open.append(f)
